@@ -264,6 +264,29 @@ def case_rule(ctx, rule):
                    "" if ok else "%s classifies / converts letter case with %s: a non-ASCII letter is treated differently from its re-cased spelling" % (common.top_fn(F, fn).path, d),
                    fn.loc(t["line"]), how="Unicode " + nm)
     rep.floor(rule, n, 6, "case classifications / conversions")
+    # ... and one notion of *character*: text is classified by chars, never by bytes dressed up as chars (a continuation byte of a
+    # multi-byte letter read as a Latin-1 character is a blank / a letter of another case for some letters and not for their re-cased forms)
+    m = 0
+    bad = None
+    for fn in F.all_bodies(tests=False):
+        if not (fn.file.startswith("src/frontend/") or fn.file.startswith("src/exec/")) or fn.is_derived():
+            continue
+        m += 1
+        for bi, t in fn.calls():
+            inst = t["callee"].get("inst") or ""
+            if "char as std::convert::From<u8>" in inst:
+                bad = (fn, t["line"], "char::from(u8)")
+            for a in t["args"]:
+                c_ = a.get("const")
+                if c_ and "fn" in c_ and "char as std::convert::From<u8>" in c_["fn"]:
+                    bad = (fn, t["line"], "char::from handed to an adaptor")
+        for bi, si, st in fn.assigns():
+            if st["rv"].get("cast") and F.ty(st["rv"]["to"]).s == "char" and F.ty(st["rv"]["from"]).s == "u8":
+                bad = (fn, st.get("line"), "`u8 as char`")
+    ok = bad is None and m >= 100
+    rep.ob(rule, "characters-not-bytes", ok,
+           "" if ok else ("%s turns a byte of the text into a char with %s: multi-byte letters are classified by their UTF-8 bytes, which differs between a letter and its re-cased form" % (common.top_fn(F, bad[0]).path, bad[2]) if bad else "only %d bodies found" % m),
+           bad[0].loc(bad[1]) if bad else None, how="%d bodies of src/frontend and src/exec, no u8 -> char conversion" % m)
 
 
 def case_and_compare(ctx):
